@@ -8,6 +8,7 @@ from vmon import gen
 from vmon import oracle as orc
 from vmon.checks.common import obs, fail
 
+SPLIT_WAITS = "seqs"   # worker: every fifth case is built from relative messages with rests split into adjacent waits
 PROP = "C12"
 MONITORS = ["normalise", "merge", "conv"]
 INSITU = None
